@@ -811,3 +811,671 @@ Section HostSize.
   Qed.
 End HostSize.
 Print Assumptions parseHost_size.
+
+(* ------------------------------------------------------------------------------------------ *)
+(* 3. The state machine: a potential that never increases                                      *)
+(* ------------------------------------------------------------------------------------------ *)
+
+Lemma runes_pct40 buf : len (runes ([37; 52; 48]%N ++ buf)) = 3 + len (runes buf).
+Proof.
+  unfold runes. rewrite !len_map. cbn [app].
+  rewrite decode_cons. unfold dec1 at 1 2. change (37 <? 128)%N with true. cbn [fst snd].
+  rewrite decode_cons. unfold dec1 at 1 2. change (52 <? 128)%N with true. cbn [fst snd].
+  rewrite decode_cons. unfold dec1 at 1 2. change (48 <? 128)%N with true. cbn [fst snd].
+  rewrite !len_cons. lia.
+Qed.
+
+Lemma cred_loop_len c : forall l pw us pa pw' us' pa',
+  cred_loop c l pw us pa = (pw', us', pa') -> len us' + len pa' <= len us + len pa + 12 * len l.
+Proof.
+  induction l as [|ch l IH]; intros pw us pa pw' us' pa' H; cbn [cred_loop] in H.
+  - injection H as _ <- <-. rewrite (@len_nil N). lia.
+  - rewrite len_cons. pose proof (percentEncodeRune_len c ch (Some pes_UserInfo)) as He.
+    destruct ((ch =? 58)%N && negb pw); [apply IH in H; lia|].
+    destruct pw; apply IH in H; rewrite len_app in H; lia.
+Qed.
+
+Lemma host_bytes_len (r : N) (ro : option rune) (ai : bool) :
+  0 <= len (match ro with Some (Bad b) => if ai then [b] else utf8_enc r | _ => utf8_enc r end) <= 4.
+Proof.
+  pose proof (utf8_enc_len r). destruct ro as [[x|b]|]; try lia. destruct ai; [|lia].
+  unfold len. cbn [length]. lia.
+Qed.
+
+Lemma len_s_file : len s_file = 4.
+Proof. reflexivity. Qed.
+
+Lemma utf8_enc_len0 r : 0 <= len (utf8_enc r) <= 4.
+Proof. pose proof (utf8_enc_len r). lia. Qed.
+
+Ltac note pf :=
+  let T := type of pf in
+  lazymatch goal with
+  | _ : T |- _ => fail
+  | _ => pose proof pf
+  end.
+
+Section Size.
+  Variable idna_raw : str -> str * bool.
+  Variables A B : Z.
+  Hypothesis Hlin : forall d, len (fst (idna_raw d)) <= A * len d + B.
+  Variable c : cfg.
+  Hypothesis Hpre : hostfun_ok (c_pre c).
+  Hypothesis Hpost : hostfun_ok (c_post c).
+  Variable inp : list rune.
+  Variable base : option url.
+  Variable override : option state.
+
+  Notation n := (n_inp inp).
+  Notation stepf := (step idna_raw c inp base override).
+  Notation runf := (run idna_raw c inp base override).
+  Notation TInv := (Termination.Inv inp).
+
+  (* weight of a buffer byte in the host states; constant part of the host bound; budget per code point *)
+  Definition H_ : Z := 12 * (A + 1).
+  Definition HC : Z := 7 * H_ + 12 * B + 41.
+  Definition G : Z := 4 * H_.
+  Definition hsz (buf : str) : Z := H_ * len buf.
+  Definition bsz : Z := match base with Some b => usize b | None => 0 end.
+  Definition bsch : Z := match base with Some b => len (u_scheme b) | None => 0 end.
+
+  Lemma H_ge : 12 <= H_.
+  Proof. unfold H_. pose proof (A_nonneg idna_raw A B Hlin). lia. Qed.
+  Lemma G_eq : G = 4 * H_. Proof. reflexivity. Qed.
+  Lemma HC_ge : 0 <= HC.
+  Proof. unfold HC. pose proof H_ge. pose proof (B_nonneg idna_raw A B Hlin). lia. Qed.
+  Lemma hsz_nil : hsz [] = 0.
+  Proof. unfold hsz. rewrite (@len_nil N). lia. Qed.
+  Lemma hsz_ge buf : len buf <= hsz buf /\ 12 * len (runes buf) <= hsz buf.
+  Proof. unfold hsz. pose proof H_ge. pose proof (runes_len buf). pose proof (len_nonneg buf). pose proof (len_nonneg (runes buf)). nia. Qed.
+  Lemma hsz_app buf x : 0 <= len x <= 4 -> hsz (buf ++ x) <= hsz buf + G.
+  Proof. intros Hx. unfold hsz, G. rewrite len_app. pose proof H_ge. nia. Qed.
+  Lemma bsz_facts : 0 <= bsch <= bsz.
+  Proof.
+    unfold bsch, bsz. destruct base as [b|]; [|lia]. unfold usize.
+    pose proof (psize_nonneg (u_path b)).
+    pose proof (osize_nonneg (u_host b)). pose proof (osize_nonneg (u_port b)).
+    pose proof (osize_nonneg (u_query b)). pose proof (osize_nonneg (u_fragment b)).
+    unfold len. lia.
+  Qed.
+
+  Lemma parseHost_fact u buf ns u' h :
+    parseHost idna_raw c u buf ns = Ok u' h -> same u u' /\ len h <= hsz buf + HC.
+  Proof.
+    intros E. pose proof (parseHost_good idna_raw A B Hlin c Hpre Hpost u buf ns) as Hg.
+    rewrite E in Hg. cbn [rgood] in Hg. destruct Hg as [Hs Hl]. split; [assumption|].
+    unfold hostK in Hl. unfold hsz, HC, H_. lia.
+  Qed.
+  Lemma parseHost_fact_er u buf ns u' e : parseHost idna_raw c u buf ns = Er u' e -> same u u'.
+  Proof.
+    intros E. pose proof (parseHost_good idna_raw A B Hlin c Hpre Hpost u buf ns) as Hg.
+    rewrite E in Hg. exact Hg.
+  Qed.
+
+  (* the weight of the buffer: what it can still become *)
+  Definition wbuf (st : state) (buf : str) : Z :=
+    match st with
+    | Authority => 12 * len (runes buf)            (* re-encoded into username/password *)
+    | SchemeStart | Scheme | PortSt | PathStart | PathSt | OpaquePath | QuerySt | FragmentSt => len buf
+    | _ => hsz buf                                 (* handed to the host parser *)
+    end.
+  (* how often the pointer can still be moved back (Scheme -> NoScheme, Authority -> Host) *)
+  Definition resets (st : state) : Z :=
+    match st with
+    | SchemeStart | Scheme => 2
+    | NoScheme | SpecialRelativeOrAuthority | SpecialAuthoritySlashes | SpecialAuthorityIgnoreSlashes
+    | PathOrAuthority | Relative | RelativeSlash | Authority => 1
+    | _ => 0
+    end.
+  (* constant growth still ahead: the host parser's additive constant, "file", a port *)
+  Definition cst (st : state) : Z :=
+    match st with
+    | PortSt => 5
+    | FileHost | FileSlash => HC
+    | PathStart | PathSt | OpaquePath | QuerySt | FragmentSt => 0
+    | _ => HC + 5
+    end.
+  (* what can still be copied from the base *)
+  Definition bcopy (st : state) : Z :=
+    match st with
+    | SchemeStart | Scheme | NoScheme | SpecialRelativeOrAuthority | Relative | File | FileSlash => bsz
+    | RelativeSlash => bsz - bsch
+    | _ => 0
+    end.
+  Definition R (st : state) : Z := resets st * (G * (n + 1)) + cst st + bcopy st.
+
+  Definition Psi (m : mstate) : Z :=
+    usize (m_url m) + wbuf (m_state m) (m_buf m) + R (m_state m) + G * (n + 1 - m_ptr m).
+
+  (* in the opaque-path state the path is rewritten from the buffer at every code point *)
+  Definition SInv (m : mstate) : Prop :=
+    (m_state m = OpaquePath -> len (m_buf m) <= psize (u_path (m_url m)))
+    /\ len (m_buf m) <= 12 * (m_ptr m + 1).
+
+  Definition ubound (m : mstate) (u : url) : Prop := usize u <= Psi m.
+
+  Definition Qp (m : mstate) (o : outcome) : Prop :=
+    match o with
+    | Cont m' =>
+        len (m_buf m') <= len (m_buf m) + 12
+        /\ (if m_eof m' then ubound m (m_url m') else Psi m' <= Psi m /\ SInv m')
+    | RetUrl u' | RetErr u' _ | RetNilNil u' => ubound m u'
+    | Panic => True
+    end.
+
+  Lemma Qp_mherr m u t f k : ubound m u -> (forall u', same u u' -> Qp m (k u')) -> Qp m (mherr c u t f k).
+  Proof.
+    intros Hu H. unfold mherr. pose proof (handleError_same c u t f) as Hs.
+    destruct (handleError c u t f) as [u' [e|]]; cbn [fst] in Hs; [|apply H; assumption].
+    cbn [Qp]. unfold ubound in *. destruct Hs as [Hs _]. lia.
+  Qed.
+  Lemma Qp_mherr_true m u t k : ubound m u -> Qp m (mherr c u t true k).
+  Proof.
+    intros Hu. unfold mherr. pose proof (handleError_same c u t true) as Hs.
+    unfold handleError in *. cbn [fst orb] in *. cbn [Qp]. unfold ubound in *. destruct Hs as [Hs _]. lia.
+  Qed.
+
+  Lemma n_nonneg' : 0 <= n.
+  Proof. unfold n_inp, len. lia. Qed.
+
+  Ltac walk :=
+    repeat first
+      [ progress cbv beta
+      | match goal with
+        | |- Qp _ (mherr _ _ _ true _) => apply Qp_mherr_true
+        | |- Qp _ (mherr _ _ _ _ _) => apply Qp_mherr; [|intros ?u' ?Hu']
+        | |- Qp _ ((if ?b then _ else _) _) => destruct b eqn:?
+        | |- Qp _ (if ?b then _ else _) => destruct b eqn:?
+        | |- Qp _ (match ?x with _ => _ end) => destruct x eqn:?
+        | |- Qp _ ?o =>
+            match o with
+            | context [if ?b then _ else _] => destruct b eqn:?
+            | context [match ?x with [] => _ | _ :: _ => _ end] => destruct x eqn:?
+            | context [match ?x with Some _ => _ | None => _ end] => destruct x eqn:?
+            | context [match ?x with Good _ => _ | Bad _ => _ end] => destruct x eqn:?
+            end
+        end ].
+
+  Ltac bytes_tac :=
+    repeat match goal with |- context [match ?y with _ => _ end] => destruct y end;
+    first [apply utf8_enc_len0 | unfold len; cbn [length]; lia].
+
+  (* facts about the sub-terms that occur in the goal *)
+  Ltac facts :=
+    repeat match goal with
+    | H : same _ _ |- _ => destruct H as [? ?]
+    | H : parseHost _ _ _ _ _ = Ok _ _ |- _ => apply parseHost_fact in H; destruct H as [? ?]
+    | H : parseHost _ _ _ _ _ = Er _ _ |- _ => apply parseHost_fact_er in H
+    | H : cred_loop _ _ _ _ _ = (_, _, _) |- _ => apply cred_loop_len in H
+    | H : (65535 <? ?p)%N = false |- _ => note (itoa_len5 p ltac:(lia))
+    | |- context [cleanDefaultPort c ?x] =>
+        let v := fresh "cdp" in
+        pose proof (usize_cleanDefaultPort c x); set (v := cleanDefaultPort c x) in *; clearbody v
+    | |- context [percentEncodeRune ?c0 ?r ?t] => note (percentEncodeRune_len c0 r t)
+    | |- context [percentEncodeInvalidRune ?c0 ?r ?t] => note (percentEncodeInvalidRune_len c0 r t)
+    | |- context [utf8_enc ?r] => note (utf8_enc_len r)
+    | |- context [hsz (?b ++ ?x)] =>
+        note (hsz_app b x ltac:(bytes_tac))
+    | |- context [hsz ?b] => note (hsz_ge b)
+    | |- context [shortenPath ?s ?p] => note (psize_shortenPath s p)
+    | |- context [replace_last ?p ?x] => note (psize_replace_last p x)
+    end.
+
+  Ltac start m Hst Hinv Hs :=
+    destruct m as [st p e buf aF brF pwF u]; cbn [m_state] in Hst; subst st;
+    destruct Hinv as (He & Hp & Hb); cbn [m_state m_ptr m_eof m_buf] in He, Hp, Hb;
+    subst e; unfold SInv in Hs; cbn [m_state m_buf m_url m_ptr] in Hs; destruct Hs as [Hs Hbuf];
+    first [specialize (Hs eq_refl) | clear Hs];
+    cbv beta iota zeta delta [step m_state m_ptr m_eof m_buf m_at m_br m_pw m_url];
+    cbn [bufinv] in Hb; try subst buf;
+    destruct (n <=? p + 1)%Z eqn:En.
+
+  Ltac arith p :=
+    pose proof H_ge; pose proof G_eq; pose proof HC_ge; pose proof n_nonneg'; pose proof bsz_facts;
+    pose proof (Z.mul_le_mono_nonneg_l (p + 1) n G ltac:(lia) ltac:(lia));
+    pose proof (Z.mul_le_mono_nonneg_l 0 (p + 1) G ltac:(lia) ltac:(lia));
+    pose proof (Z.mul_le_mono_nonneg_l 0 n G ltac:(lia) ltac:(lia)).
+
+  Ltac finp p :=
+    unfold Qp, ubound, Psi, SInv, R, mk; cbn [m_state m_ptr m_eof m_buf m_url wbuf resets cst bcopy];
+    repeat match goal with |- context [(?a <=? ?b)%Z] => destruct (a <=? b)%Z eqn:? end;
+    repeat split; intros; try discriminate;
+    arith p; facts;
+    try match goal with Hb : len (runes ?b) <= p + 1 |- _ =>
+          pose proof (Z.mul_le_mono_nonneg_l _ _ G ltac:(lia) Hb) end;
+    try match goal with E : base = _ |- _ => unfold bsz, bsch in *; rewrite E in * end;
+    unfold usize in *;
+    cbn [set_input set_scheme set_username set_password set_host set_port set_path set_query set_fragment
+         set_verrs set_sp copy_base_auth addSegment
+         u_scheme u_username u_password u_host u_port u_path u_query u_fragment osize] in *;
+    repeat match goal with E : u_path _ = _ :: _ |- _ => rewrite E in * end;
+    rewrite ?psize_app in *; cbn [psize] in *;
+    rewrite ?len_s_file, ?hsz_nil, ?runes_snoc_len, ?runes_nil_len, ?runes_pct40, ?len_app in *;
+    repeat match goal with
+           | |- context [psize ?q] => note (psize_nonneg q)
+           | |- context [osize ?q] => note (osize_nonneg q)
+           | H : context [psize ?q] |- _ => note (psize_nonneg q)
+           | H : context [osize ?q] |- _ => note (osize_nonneg q)
+           end;
+    unfold len in *; cbn [length] in *.
+  Ltac quick :=
+    unfold Qp, ubound, SInv, mk; cbn [m_state m_ptr m_eof m_buf m_url];
+    repeat match goal with |- context [(?a <=? ?b)%Z] => destruct (a <=? b)%Z eqn:? end;
+    repeat split; intros; try discriminate.
+  Ltac small :=
+    repeat match goal with
+    | |- context [percentEncodeRune ?c0 ?r ?t] => note (percentEncodeRune_len c0 r t)
+    | |- context [percentEncodeInvalidRune ?c0 ?r ?t] => note (percentEncodeInvalidRune_len c0 r t)
+    | |- context [utf8_enc ?r] => note (utf8_enc_len r)
+    end;
+    rewrite ?len_app in *; unfold len in *; cbn [length] in *; lia.
+  Ltac fin p := try exact I; quick; first [solve [small] | finp p; lia].
+
+  Lemma P_SchemeStart m : m_state m = SchemeStart -> TInv m -> SInv m -> Qp m (stepf m).
+  Proof. intros Hst Hinv Hs. start m Hst Hinv Hs; walk; fin p. Qed.
+  Lemma P_Scheme m : m_state m = Scheme -> TInv m -> SInv m -> Qp m (stepf m).
+  Proof. intros Hst Hinv Hs. start m Hst Hinv Hs; walk; fin p. Qed.
+  Lemma P_NoScheme m : m_state m = NoScheme -> TInv m -> SInv m -> Qp m (stepf m).
+  Proof. intros Hst Hinv Hs. start m Hst Hinv Hs; walk; fin p. Qed.
+  Lemma P_OpaquePath m : m_state m = OpaquePath -> TInv m -> SInv m -> Qp m (stepf m).
+  Proof. intros Hst Hinv Hs. start m Hst Hinv Hs; walk; fin p. Qed.
+  Lemma P_SpecialRelativeOrAuthority m : m_state m = SpecialRelativeOrAuthority -> TInv m -> SInv m -> Qp m (stepf m).
+  Proof. intros Hst Hinv Hs. start m Hst Hinv Hs; walk; fin p. Qed.
+  Lemma P_SpecialAuthoritySlashes m : m_state m = SpecialAuthoritySlashes -> TInv m -> SInv m -> Qp m (stepf m).
+  Proof. intros Hst Hinv Hs. start m Hst Hinv Hs; walk; fin p. Qed.
+  Lemma P_SpecialAuthorityIgnoreSlashes m : m_state m = SpecialAuthorityIgnoreSlashes -> TInv m -> SInv m -> Qp m (stepf m).
+  Proof. intros Hst Hinv Hs. start m Hst Hinv Hs; walk; fin p. Qed.
+  Lemma P_PathOrAuthority m : m_state m = PathOrAuthority -> TInv m -> SInv m -> Qp m (stepf m).
+  Proof. intros Hst Hinv Hs. start m Hst Hinv Hs; walk; fin p. Qed.
+  Lemma P_Authority m : m_state m = Authority -> TInv m -> SInv m -> Qp m (stepf m).
+  Proof. intros Hst Hinv Hs. start m Hst Hinv Hs; destruct aF; walk; fin p. Qed.
+  Lemma P_HostSt m : m_state m = HostSt -> TInv m -> SInv m -> Qp m (stepf m).
+  Proof. intros Hst Hinv Hs. start m Hst Hinv Hs; walk; fin p. Qed.
+  Lemma P_HostnameSt m : m_state m = HostnameSt -> TInv m -> SInv m -> Qp m (stepf m).
+  Proof. intros Hst Hinv Hs. start m Hst Hinv Hs; walk; fin p. Qed.
+  Lemma P_File m : m_state m = File -> TInv m -> SInv m -> Qp m (stepf m).
+  Proof. intros Hst Hinv Hs. start m Hst Hinv Hs; walk; fin p. Qed.
+  Lemma P_FileHost m : m_state m = FileHost -> TInv m -> SInv m -> Qp m (stepf m).
+  Proof. intros Hst Hinv Hs. start m Hst Hinv Hs; walk; fin p. Qed.
+  Lemma P_FileSlash m : m_state m = FileSlash -> TInv m -> SInv m -> Qp m (stepf m).
+  Proof. intros Hst Hinv Hs. start m Hst Hinv Hs; walk; fin p. Qed.
+  Lemma P_PortSt m : m_state m = PortSt -> TInv m -> SInv m -> Qp m (stepf m).
+  Proof. intros Hst Hinv Hs. start m Hst Hinv Hs; walk; fin p. Qed.
+  Lemma P_PathSt m : m_state m = PathSt -> TInv m -> SInv m -> Qp m (stepf m).
+  Proof. intros Hst Hinv Hs. start m Hst Hinv Hs; walk; fin p. Qed.
+  Lemma P_PathStart m : m_state m = PathStart -> TInv m -> SInv m -> Qp m (stepf m).
+  Proof. intros Hst Hinv Hs. start m Hst Hinv Hs; walk; fin p. Qed.
+  Lemma P_QuerySt m : m_state m = QuerySt -> TInv m -> SInv m -> Qp m (stepf m).
+  Proof. intros Hst Hinv Hs. start m Hst Hinv Hs; walk; fin p. Qed.
+  Lemma P_FragmentSt m : m_state m = FragmentSt -> TInv m -> SInv m -> Qp m (stepf m).
+  Proof. intros Hst Hinv Hs. start m Hst Hinv Hs; walk; fin p. Qed.
+  Lemma P_Relative m : m_state m = Relative -> TInv m -> SInv m -> Qp m (stepf m).
+  Proof. intros Hst Hinv Hs. start m Hst Hinv Hs; walk; fin p. Qed.
+  Lemma P_RelativeSlash m : m_state m = RelativeSlash -> TInv m -> SInv m -> Qp m (stepf m).
+  Proof. intros Hst Hinv Hs. start m Hst Hinv Hs; walk; fin p. Qed.
+
+  Lemma step_Qp m : TInv m -> SInv m -> Qp m (stepf m).
+  Proof.
+    intros H Hs. destruct (m_state m) eqn:E;
+      eauto using P_SchemeStart, P_Scheme, P_NoScheme, P_OpaquePath, P_SpecialRelativeOrAuthority,
+        P_SpecialAuthoritySlashes, P_SpecialAuthorityIgnoreSlashes, P_PathOrAuthority, P_Authority,
+        P_HostSt, P_HostnameSt, P_File, P_FileHost, P_FileSlash, P_PortSt, P_PathSt, P_PathStart,
+        P_QuerySt, P_FragmentSt, P_Relative, P_RelativeSlash.
+  Qed.
+
+  (* Z2, global form: along a run the potential never increases (and the invariants are kept) *)
+  Theorem step_potential m m' :
+    stepf m = Cont m' -> TInv m -> SInv m -> m_eof m' = false ->
+    Psi m' <= Psi m /\ SInv m' /\ TInv m'.
+  Proof.
+    intros Es Hi Hs He. pose proof (step_Qp m Hi Hs) as HQ. rewrite Es in HQ. cbn [Qp] in HQ.
+    rewrite He in HQ. destruct HQ as (_ & H1 & H2).
+    destruct (step_decreases idna_raw c inp base override m m' Es Hi He) as [Hi' _]. auto.
+  Qed.
+
+  (* the record a run leaves behind, however it ends *)
+  Definition left_url (r : result) : option url :=
+    match r with RUrl u | RErr u _ | RNilNil u => Some u | RPanic | ROutOfFuel => None end.
+
+  Lemma run_potential : forall fuel m u', TInv m -> SInv m ->
+    left_url (runf fuel m) = Some u' -> usize u' <= Psi m.
+  Proof.
+    induction fuel as [|f IH]; intros m u' Hi Hs Hr; [discriminate|].
+    cbn [run] in Hr. pose proof (step_Qp m Hi Hs) as HQ.
+    destruct (stepf m) as [m'|u1|u1 e1|u1|] eqn:Es; cbn [Qp] in HQ; unfold ubound in HQ;
+      try (cbn [left_url] in Hr; injection Hr as <-; exact HQ); try discriminate.
+    destruct HQ as [_ HQ]. destruct (m_eof m') eqn:Ee.
+    - cbn [left_url] in Hr. injection Hr as <-. exact HQ.
+    - destruct HQ as [H1 H2].
+      destruct (step_decreases idna_raw c inp base override m m' Es Hi Ee) as [Hi' _].
+      specialize (IH m' u' Hi' H2 Hr). lia.
+  Qed.
+
+  Lemma SInv_init st0 u : SInv (m_init st0 u).
+  Proof.
+    unfold SInv, m_init, mk. cbn [m_state m_buf m_url m_ptr]. split; [intros _|];
+      rewrite (@len_nil N); [apply psize_nonneg | lia].
+  Qed.
+
+  Lemma Psi_init st0 u : Psi (m_init st0 u) <= usize u + G * (3 * n + 4) + HC + 5 + bsz.
+  Proof.
+    unfold Psi, m_init, mk, R. cbn [m_state m_buf m_url m_ptr].
+    pose proof H_ge. pose proof G_eq. pose proof HC_ge. pose proof n_nonneg'. pose proof bsz_facts.
+    pose proof (Z.mul_le_mono_nonneg_l 0 n G ltac:(lia) ltac:(lia)).
+    destruct st0; cbn [wbuf resets cst bcopy]; rewrite ?hsz_nil, ?runes_nil_len, ?(@len_nil N); lia.
+  Qed.
+
+  (* Z3 for the loop: whatever the start state and however the run ends, the record it leaves behind is
+     linear in the number of code points of the input *)
+  Theorem run_size fuel st0 u u' :
+    left_url (runf fuel (mk st0 (-1) false [] false false false u)) = Some u' ->
+    usize u' <= usize u + 144 * (A + 1) * len inp + (276 * (A + 1) + 12 * B + 46) + bsz.
+  Proof.
+    intros Hr. fold (m_init st0 u) in Hr.
+    pose proof (run_potential fuel _ u' (Inv_init inp st0 u) (SInv_init st0 u) Hr) as H1.
+    pose proof (Psi_init st0 u) as H2. unfold G, HC, H_, n_inp in *. lia.
+  Qed.
+
+  (* Z5 (a): in every reachable machine state the buffer holds at most 12 bytes per code point read
+     so far (the buffer is emptied whenever the pointer is moved back) *)
+  Inductive reach : mstate -> Prop :=
+  | reach_init st0 u : reach (m_init st0 u)
+  | reach_step m m' : reach m -> stepf m = Cont m' -> m_eof m' = false -> reach m'.
+
+  Lemma reach_inv m : reach m -> TInv m /\ SInv m.
+  Proof.
+    induction 1 as [st0 u|m m' Hr [Hi Hs] Es Ee]; [split; [apply Inv_init | apply SInv_init]|].
+    destruct (step_potential m m' Es Hi Hs Ee) as (_ & H1 & H2). auto.
+  Qed.
+
+  Theorem buf_bound m : reach m -> len (m_buf m) <= 12 * (m_ptr m + 1) /\ m_ptr m + 1 <= len inp.
+  Proof.
+    intros Hr. destruct (reach_inv m Hr) as [(_ & Hp & _) [_ Hb]]. unfold n_inp in Hp. split; [assumption | lia].
+  Qed.
+
+  (* Z5 (b): one iteration lengthens the buffer by at most 12 bytes *)
+  Lemma step_buf m m' : TInv m -> SInv m -> stepf m = Cont m' -> len (m_buf m') <= len (m_buf m) + 12.
+  Proof.
+    intros Hi Hs Es. pose proof (step_Qp m Hi Hs) as HQ. rewrite Es in HQ. cbn [Qp] in HQ. tauto.
+  Qed.
+
+  (* The iterations that read the buffer as a whole (runes buf / the credentials loop in Authority,
+     isSpecialScheme buf in Scheme, parseHost buf in Host/Hostname/FileHost, digits_val buf in Port,
+     str_lower buf inside is{Single,Double}DotPathSegment buf at the end of a path segment, copying
+     buf into query/fragment) all either end the run or leave the buffer empty.  run_scan adds up
+     the buffer length over ALL iterations that end the run or empty the buffer. *)
+  Fixpoint run_scan (fuel : nat) (m : mstate) : Z :=
+    match fuel with
+    | O => 0
+    | Datatypes.S f =>
+        match stepf m with
+        | Cont m' => if m_eof m' then len (m_buf m)
+                     else (if is_nil (m_buf m') then len (m_buf m) else 0) + run_scan f m'
+        | _ => len (m_buf m)
+        end
+    end.
+
+  Lemma run_scan_bound : forall fuel m, TInv m -> SInv m ->
+    run_scan fuel m <= len (m_buf m) + 12 * Z.of_nat (snd (run_count idna_raw c inp base override fuel m)).
+  Proof.
+    induction fuel as [|f IH]; intros m Hi Hs; [cbn; pose proof (len_nonneg (m_buf m)); lia|].
+    cbn [run_scan run_count]. pose proof (len_nonneg (m_buf m)) as Hn.
+    destruct (stepf m) as [m'| | | |] eqn:Es; cbn [snd]; try lia.
+    pose proof (step_buf m m' Hi Hs Es) as Hb.
+    destruct (m_eof m') eqn:Ee; [cbn [snd]; lia|].
+    destruct (step_potential m m' Es Hi Hs Ee) as (_ & H1 & H2). specialize (IH m' H2 H1).
+    destruct (run_count idna_raw c inp base override f m') as [r k]. cbn [snd] in *.
+    destruct (m_buf m') as [|x l] eqn:Eb; cbn [is_nil]; rewrite ?(@len_nil N) in *; lia.
+  Qed.
+
+  (* the total size of what is scanned as a whole during a run is linear in the input *)
+  Theorem scanned_total fuel st0 u :
+    run_scan fuel (m_init st0 u) <= 12 * (14 * (len inp + 3) - 2).
+  Proof.
+    pose proof (run_scan_bound fuel _ (Inv_init inp st0 u) (SInv_init st0 u)) as H.
+    pose proof (run_steps_bound_sharp idna_raw c inp base override fuel st0 u) as H2.
+    unfold steps in H2. unfold m_init at 2 in H. unfold mk in H. cbn [m_buf] in H.
+    rewrite (@len_nil N) in H. lia.
+  Qed.
+
+End Size.
+
+(* ------------------------------------------------------------------------------------------ *)
+(* 4. The entry points: cleaning the input does not add code points                            *)
+(* ------------------------------------------------------------------------------------------ *)
+
+Lemma filter_len {T} (f : T -> bool) l : len (filter f l) <= len l.
+Proof.
+  induction l as [|x l IH]; cbn [filter]; [lia|]. destruct (f x); rewrite ?len_cons; lia.
+Qed.
+
+Lemma isTabOrNewline_high b : (128 <= b)%N -> isTabOrNewline b = false.
+Proof. intros H. unfold isTabOrNewline, bs_test, mem, bs_ASCIITabOrNewline. cbn [existsb]. lia. Qed.
+
+Definition keep (b : N) : bool := negb (isTabOrNewline b).
+
+Lemma filter_utf8_enc r : filter keep (utf8_enc r) = if keep r then utf8_enc r else [].
+Proof.
+  assert (Hh : forall b, (128 <= b)%N -> keep b = true)
+    by (intros b Hb; unfold keep; rewrite isTabOrNewline_high by lia; reflexivity).
+  unfold utf8_enc. destruct (r <? 128)%N eqn:E1; [cbn [filter]; destruct (keep r); reflexivity|].
+  rewrite (Hh r) by lia.
+  destruct (r <? 2048)%N eqn:E2; [cbn [filter]; rewrite !Hh by lia; reflexivity|].
+  destruct (is_surrogate r || (1114111 <? r)%N); [cbn [filter]; rewrite !Hh by lia; reflexivity|].
+  destruct (r <? 65536)%N; cbn [filter]; rewrite !Hh by lia; reflexivity.
+Qed.
+
+Lemma filter_encode l : filter keep (encode_runes l) = encode_runes (filter keep l).
+Proof.
+  unfold encode_runes. induction l as [|r l IH]; [reflexivity|].
+  cbn [flat_map filter]. rewrite filter_app, filter_utf8_enc, IH. destruct (keep r); reflexivity.
+Qed.
+
+Lemma head_ok_encode l : head_ok (encode_runes l).
+Proof.
+  destruct l as [|r l]; [exact I|]. unfold encode_runes. cbn [flat_map].
+  pose proof (utf8_enc_head_ok r) as H. pose proof (utf8_enc_len r) as Hl.
+  destruct (utf8_enc r) as [|b t]; [rewrite (@len_nil N) in Hl; lia|]. exact H.
+Qed.
+
+Lemma decode_encode_len l : len (decode (encode_runes l)) = len l.
+Proof.
+  induction l as [|r l IH]; [reflexivity|].
+  change (encode_runes (r :: l)) with (utf8_enc r ++ encode_runes l).
+  rewrite decode_app by apply head_ok_encode. rewrite len_app, IH, len_cons.
+  pose proof (decode_utf8_enc_len r). unfold len. lia.
+Qed.
+
+(* the code points the state machine runs over are at most the bytes of the given string *)
+Lemma clean_input_len ai s : len (decode (fst (remove_tabnl_sv ai s))) <= len s.
+Proof.
+  unfold remove_tabnl_sv, remove_tabnl. cbv beta iota zeta.
+  change (fun b : N => negb (isTabOrNewline b)) with keep.
+  match goal with |- context [if ?b then _ else _] => destruct b end; cbn [fst].
+  - unfold to_valid. rewrite filter_encode, decode_encode_len.
+    pose proof (filter_len keep (runes s)). pose proof (runes_len s). lia.
+  - pose proof (decode_len (filter keep s)). pose proof (filter_len keep s). lia.
+Qed.
+
+Lemma trim_left_set_len s : len (trim_left_set s) <= len s.
+Proof.
+  induction s as [|b s IH]; cbn [trim_left_set]; [lia|]. destruct (in_c0_or_space b); rewrite ?len_cons; lia.
+Qed.
+Lemma trim_c0space_len s : len (fst (trim_c0space s)) <= len s.
+Proof.
+  unfold trim_c0space. cbn [fst]. rewrite len_rev.
+  pose proof (trim_left_set_len (rev (trim_left_set s))). rewrite len_rev in *.
+  pose proof (trim_left_set_len s). lia.
+Qed.
+
+Definition obsz (b : option url) : Z := match b with Some x => usize x | None => 0 end.
+
+Section Entry.
+  Variable idna_raw : str -> str * bool.
+  Variables A B : Z.
+  Hypothesis Hlin : forall d, len (fst (idna_raw d)) <= A * len d + B.
+  Variable c : cfg.
+  Hypothesis Hpre : hostfun_ok (c_pre c).
+  Hypothesis Hpost : hostfun_ok (c_post c).
+
+  (* the constants of the bound: K per input byte, K0 additive *)
+  Definition KA : Z := 144 * (A + 1).
+  Definition K0 : Z := 276 * (A + 1) + 12 * B + 46.
+
+  Lemma KA_nonneg : 0 <= KA /\ 0 <= K0.
+  Proof. unfold KA, K0. pose proof (A_nonneg idna_raw A B Hlin). pose proof (B_nonneg idna_raw A B Hlin). lia. Qed.
+
+  (* BasicParser after the (optional) trimming: tab/newline removal, then the loop *)
+  Definition bp_start (baseUrl : option url) (override : option state) (u : url) : result :=
+    let '(i, changed) := remove_tabnl_sv (c_acceptInvalid c) (u_input u) in
+    let k (u : url) : result :=
+      let inp := decode (u_input u) in
+      let st := match override with Some s => s | None => SchemeStart end in
+      run idna_raw c inp (option_map clone baseUrl) override (fuel_of (length inp))
+          (mk st (-1)%Z false [] false false false u) in
+    if changed then
+      match handleError c u InvalidURLUnit false with
+      | (u', Some e) => RErr u' e
+      | (u', None) => k (set_input u' i)
+      end
+    else k u.
+
+  Lemma BasicParser_unfold s b u0 ov :
+    BasicParser idna_raw c s b u0 ov =
+    match u0 with
+    | Some u => bp_start b ov (set_input u s)
+    | None =>
+        let u := empty_url s in
+        let '(i, changed) := trim_c0space s in
+        if changed then
+          match handleError c u InvalidURLUnit false with
+          | (u', Some e) => RErr u' e
+          | (u', None) => bp_start b ov (set_input u' i)
+          end
+        else bp_start b ov u
+    end.
+  Proof. reflexivity. Qed.
+
+  Lemma bsz_clone b : bsz (option_map clone b) = obsz b.
+  Proof. destruct b; reflexivity. Qed.
+
+  Lemma bp_start_size b ov u u' :
+    left_url (bp_start b ov u) = Some u' ->
+    usize u' <= usize u + KA * len (u_input u) + K0 + obsz b.
+  Proof.
+    pose proof KA_nonneg as [HK HK0].
+    assert (Hob : 0 <= obsz b) by (destruct b; cbn [obsz]; [apply usize_nonneg | lia]).
+    pose proof (len_nonneg (u_input u)) as Hin.
+    assert (Hk : forall u1 st, left_url (run idna_raw c (decode (u_input u1)) (option_map clone b) ov
+                                  (fuel_of (length (decode (u_input u1)))) (mk st (-1) false [] false false false u1)) = Some u' ->
+                 usize u' <= usize u1 + KA * len (decode (u_input u1)) + K0 + obsz b).
+    { intros u1 st Hr. pose proof (run_size idna_raw A B Hlin c Hpre Hpost _ _ _ _ _ _ _ Hr) as H.
+      rewrite bsz_clone in H. unfold KA, K0. lia. }
+    unfold bp_start. pose proof (clean_input_len (c_acceptInvalid c) (u_input u)) as Hc.
+    destruct (remove_tabnl_sv (c_acceptInvalid c) (u_input u)) as [i ch]. cbn [fst] in Hc.
+    destruct ch.
+    - pose proof (handleError_same c u InvalidURLUnit false) as [Hs _].
+      destruct (handleError c u InvalidURLUnit false) as [u1 [e|]]; cbn [fst] in Hs; intros Hr.
+      + cbn [left_url] in Hr. injection Hr as <-. nia.
+      + apply Hk in Hr. cbn [set_input u_input] in Hr. rewrite usize_set_input in Hr.
+        assert (KA * len (decode i) <= KA * len (u_input u)) by (apply Z.mul_le_mono_nonneg_l; lia). lia.
+    - intros Hr. apply Hk in Hr. pose proof (decode_len (u_input u)).
+      assert (KA * len (decode (u_input u)) <= KA * len (u_input u)) by (apply Z.mul_le_mono_nonneg_l; lia). lia.
+  Qed.
+
+  (* Z3, general form: BasicParser(urlOrRef, base, url, stateOverride), however it returns (this covers the
+     setters, whose record is whatever the parser leaves behind) *)
+  Theorem BasicParser_size s b u0 ov u' :
+    left_url (BasicParser idna_raw c s b u0 ov) = Some u' ->
+    usize u' <= obsz u0 + KA * len s + K0 + obsz b.
+  Proof.
+    pose proof KA_nonneg as [HK HK0].
+    assert (Hob : 0 <= obsz b) by (destruct b; cbn [obsz]; [apply usize_nonneg | lia]).
+    pose proof (len_nonneg s) as Hs0.
+    rewrite BasicParser_unfold. destruct u0 as [u|].
+    - intros Hr. apply bp_start_size in Hr. cbn [set_input u_input] in Hr. rewrite usize_set_input in Hr.
+      cbn [obsz]. lia.
+    - cbv zeta. pose proof (trim_c0space_len s) as Ht. destruct (trim_c0space s) as [i ch]. cbn [fst] in Ht.
+      cbn [obsz]. assert (Hu0 : usize (empty_url s) = 0) by reflexivity.
+      destruct ch.
+      + pose proof (handleError_same c (empty_url s) InvalidURLUnit false) as [Hs _].
+        destruct (handleError c (empty_url s) InvalidURLUnit false) as [u1 [e|]]; cbn [fst] in Hs; intros Hr.
+        * cbn [left_url] in Hr. injection Hr as <-. nia.
+        * apply bp_start_size in Hr. cbn [set_input u_input] in Hr. rewrite usize_set_input in Hr.
+          assert (KA * len i <= KA * len s) by (apply Z.mul_le_mono_nonneg_l; lia). lia.
+      + intros Hr. apply bp_start_size in Hr. cbn [empty_url u_input] in Hr. lia.
+  Qed.
+
+  (* Z3: Parse and Url.Parse *)
+  Theorem Parse_size s u : Parse idna_raw c s = PUrl u -> usize u <= KA * len s + K0.
+  Proof.
+    unfold Parse. intros H.
+    pose proof (BasicParser_size s None None None u) as G.
+    destruct (BasicParser idna_raw c s None None None); cbn [to_pres] in H; try discriminate.
+    injection H as ->. specialize (G eq_refl). cbn [obsz] in G. lia.
+  Qed.
+
+  Theorem UrlParse_size b ref u : UrlParse idna_raw c b ref = PUrl u -> usize u <= KA * len ref + usize b + K0.
+  Proof.
+    unfold UrlParse. intros H.
+    pose proof (BasicParser_size ref (Some b) None None u) as G.
+    destruct (BasicParser idna_raw c ref (Some b) None None); cbn [to_pres] in H; try discriminate.
+    injection H as ->. specialize (G eq_refl). cbn [obsz] in G. lia.
+  Qed.
+
+  (* Parse(rawUrl, ref): both strings count *)
+  Theorem ParseRef_size raw ref u :
+    ParseRef idna_raw c raw ref = PUrl u -> usize u <= KA * (len raw + len ref) + 2 * K0.
+  Proof.
+    pose proof KA_nonneg as [HK HK0]. pose proof (len_nonneg raw) as Hr0. pose proof (len_nonneg ref) as Hr1.
+    unfold ParseRef. destruct raw as [|x raw'].
+    - intros H. apply Parse_size in H. rewrite (@len_nil N). lia.
+    - destruct (Parse idna_raw c (x :: raw')) as [b| | | |] eqn:Eb; try discriminate.
+      intros H. apply UrlParse_size in H. apply Parse_size in Eb. lia.
+  Qed.
+End Entry.
+Print Assumptions run_size.
+Print Assumptions BasicParser_size.
+Print Assumptions Parse_size.
+Print Assumptions UrlParse_size.
+
+(* ------------------------------------------------------------------------------------------ *)
+(* Z4. The serializer adds only delimiters                                                     *)
+(* ------------------------------------------------------------------------------------------ *)
+
+Lemma pathname_len p : len (flat_map (fun s : str => 47%N :: s) p) = psize p.
+Proof. induction p as [|s p IH]; [reflexivity|]. cbn [flat_map psize]. rewrite len_app, len_cons, IH. lia. Qed.
+
+Lemma Pathname_len u pn : Pathname u = Some pn -> len pn <= psize (u_path u).
+Proof.
+  unfold Pathname, path_string. destruct (u_opaque u).
+  - destruct (u_path u) as [|s0 l]; cbn [nth_opt psize]; [discriminate|].
+    intros E. injection E as <-. pose proof (psize_nonneg l). lia.
+  - intros E. injection E as <-. rewrite pathname_len. lia.
+Qed.
+
+(* ":" "//" ":" "@" ":" "?" "#" -- the "/" in front of each path segment is counted in usize *)
+Theorem Href_size u ex h : Href u ex = Some h -> len h <= usize u + 8.
+Proof.
+  unfold Href. destruct (Pathname u) as [pn|] eqn:Epn; [|discriminate].
+  apply Pathname_len in Epn. unfold usize.
+  pose proof (osize_nonneg (u_port u)) as Hport.
+  intros H. injection H as <-.
+  repeat match goal with
+         | |- context [match ?x with Some _ => _ | None => _ end] => destruct x
+         | |- context [if ?b then _ else _] => destruct b
+         end;
+    cbn [osize] in *; unfold len in *; cbn [length]; repeat (rewrite app_length; cbn [length]); lia.
+Qed.
+Print Assumptions Href_size.
+
+(* parse then serialize: linear in the input *)
+Corollary Parse_Href_size idna_raw A B c :
+  (forall d, len (fst (idna_raw d)) <= A * len d + B) -> hostfun_ok (c_pre c) -> hostfun_ok (c_post c) ->
+  forall s u h, Parse idna_raw c s = PUrl u -> Href u false = Some h ->
+  len h <= 144 * (A + 1) * len s + (276 * (A + 1) + 12 * B + 54).
+Proof.
+  intros Hlin Hpre Hpost s u h Hp Hh. apply Href_size in Hh.
+  pose proof (Parse_size idna_raw A B Hlin c Hpre Hpost s u Hp) as H. unfold KA, K0 in H. lia.
+Qed.
+Print Assumptions Parse_Href_size.
